@@ -24,7 +24,7 @@ class Stream:
 
 class Prop:
     def __init__(self, pid, coq_props, coq_run, streams, trusted_base, assumptions, gen=True,
-                 props_module=None, extra_targets=None):
+                 props_module=None, extra_targets=None, gen_files=None):
         self.pid = pid
         self.coq_props = coq_props            # e.g. theories/C18/Props.v
         self.coq_run = coq_run                # list of .v files the streams need (model only)
@@ -34,6 +34,7 @@ class Prop:
         self.gen = gen
         self.props_module = props_module or coq_props[len("theories/"):-2].replace("/", ".")
         self.extra_targets = extra_targets or []
+        self.gen_files = gen_files or []     # generated Gen/*.v files besides Schema.v this property's theories import
 
 
 def load_known():
@@ -66,7 +67,9 @@ def run_stream(prop, st, tier, seed, wd, replay=None, tag="main", shard=0):
     m = json.load(open(meta))
     ok, idx, cout = V.eval_cases(cases)
     return {"ok": ok, "stage": "coqc", "out": cout, "meta": m, "idx": idx, "harness_s": dur,
-            "skipped": V.eval_cases.last_skipped}
+            "skipped": (lambda m: int(m.group(1)) if m else 0)(__import__("re").search(r"^SK\s*=\s*(\d+)", cout, __import__("re").M)),
+            # optional: cases whose data does not meet the hypotheses of the closed theorems (reported only)
+            "hyp_failed": (lambda m: int(m.group(1)) if m else None)(__import__("re").search(r"^HY\s*=\s*(\d+)", cout, __import__("re").M))}
 
 
 def shrink(prop, st, tier, seed, wd, inp):
@@ -109,7 +112,12 @@ def run_property(prop, tier, replay=None):
     os.makedirs(wd, exist_ok=True)
     os.makedirs(os.path.join(V.VERIF, "replays"), exist_ok=True)
     known = load_known()
-    import glob
+    import glob, shutil
+    if replay:
+        # the file to replay may be one of the replays of the previous run, which are cleared below
+        keep = os.path.join(wd, "replay_input.json")
+        shutil.copyfile(replay, keep)
+        replay = keep
     for old in glob.glob(os.path.join(V.VERIF, "replays", "%s_*.json" % prop.pid)):
         os.remove(old)
     violations = []       # (replay path, note, no_input)
@@ -128,7 +136,7 @@ def run_property(prop, tier, replay=None):
             V.log(hout[-3000:])
         # 2. generated files
         if hok and prop.gen:
-            gok, gout = V.regen()
+            gok, gout = V.regen(prop.gen_files)
             if not gok:
                 broken.append("translator `lmdverif gen` failed")
                 V.log(gout[-3000:])
@@ -185,8 +193,13 @@ def run_property(prop, tier, replay=None):
                     corpus = os.path.join(V.VERIF, "replays", "corpus", prop.pid, st.name + ".json")
                     if os.path.exists(corpus):
                         results.append(run_stream(prop, st, tier, seed, wd, replay=corpus, tag="corpus"))
-                    for sh in range(shards):
-                        results.append(run_stream(prop, st, tier, seed, wd, shard=sh))
+                    if shards <= 1:
+                        results.append(run_stream(prop, st, tier, seed, wd, shard=0))
+                    else:
+                        # shards differ in their seed, run them side by side (the sandbox has 16 cores)
+                        from concurrent.futures import ThreadPoolExecutor
+                        with ThreadPoolExecutor(max_workers=min(shards, int(os.environ.get("VERIF_JOBS", "6")))) as pool:
+                            results += list(pool.map(lambda sh: run_stream(prop, st, tier, seed, wd, shard=sh), range(shards)))
                 for res in results:
                     if not res["ok"]:
                         if res["stage"] == "harness":
@@ -196,6 +209,8 @@ def run_property(prop, tier, replay=None):
                         continue
                     m = res["meta"]
                     cov["skipped_outside_fragment"] = cov.get("skipped_outside_fragment", 0) + res.get("skipped", 0)
+                    if res.get("hyp_failed") is not None:
+                        cov["theorem_hypotheses_not_met_cases"] = cov.get("theorem_hypotheses_not_met_cases", 0) + res["hyp_failed"]
                     evaluations += m["cases"]
                     programs += m["cases"]
                     nontrivial += m["distinct_nontrivial"]
@@ -256,6 +271,7 @@ def run_property(prop, tier, replay=None):
             "exhaustive": bool(exhaustive),
             "cases_per_stream": cov["streams"], "input_histogram": cov["histogram"],
             "skipped_outside_model_fragment": cov.get("skipped_outside_fragment", 0),
+            "theorem_hypotheses_not_met_cases": cov.get("theorem_hypotheses_not_met_cases", 0),
             "no_longer_checks": broken,
             "coqchk": coqchk,
             "known_findings_hit": [f.get("id") for f in known_hits],
